@@ -302,7 +302,7 @@ func c01r3(r *R) {
 	for m, arg := range map[string]string{"ModifyRequest": "$1.Header", "ModifyResponse": "$1.Header"} {
 		fn := r.method(mpkg+"/header", "hopByHopModifier", m)
 		cs := callsToFunc(fn, rh)
-		r.check(len(cs) == 1 && describe(cs[0].Common().Args[0]) == arg, "hopByHopModifier."+m, fn.Pos(), "removes hop-by-hop fields of its message", m+" does not strip its message's header")
+		r.check(len(cs) == 1 && describe(refArgs(cs[0].Common())[0]) == arg, "hopByHopModifier."+m, fn.Pos(), "removes hop-by-hop fields of its message", m+" does not strip its message's header")
 	}
 }
 
